@@ -940,6 +940,12 @@ def apply_closure(facts, clo, args, _depth=0):
         b = inlinable(facts, c[1])
         if b is not None and b.argc == len(args):
             return subst_args(b.ret_expr(), list(args))
+        # a tuple-variant constructor used as a function (`.map(TokenType::Duration)`): the aggregate it builds
+        path = re.sub(r'::<.*>$', '', str(c[1]))
+        owner, _, vname = path.rpartition('::')
+        rec = facts.adts.get(owner)
+        if rec and any(v['name'] == vname for v in rec['variants']) and args:
+            return ('aggr', path, list(args), [])
     return None
 
 
